@@ -853,4 +853,4 @@ Lemma inner_step_ascii f t lip k tail : ascii_key k = true ->
   | PCont t' lip' => inner f t' lip' tail
   | PLine ss p t' => ILine ss p t' tail
   end.
-Proof. intros H. cbn [inner]. rewrite (bytes_to_key_ascii k tail (paste t) H). reflexivity. Qed.
+Proof. intros H. cbn [inner]. unfold next_key. rewrite (bytes_to_key_ascii k tail (paste t) H). reflexivity. Qed.
